@@ -222,6 +222,11 @@ func runCheck(o *checkOpts) (*checkOutcome, error) {
 	if o.tier == "thorough" {
 		timeout, needTwo = 60, true
 	}
+	for _, ob := range obls {
+		if u.knownFailing[ob.Name] {
+			ob.Quick = true // a listed known finding: only confirm briefly whether it still fails
+		}
+	}
 	out.results = u.dischargeAll(obls, dir, timeout, needTwo, 16)
 	for i, r := range out.results {
 		switch {
